@@ -567,7 +567,7 @@ theorem recycled_tokens_partition_original (lv : LenV) (D : Dict) (m0 : Recycle.
     (rvar : Oov.Variant) (bowFix : Bool) (tab : List (Nat × Nat))
     (hmk : ∀ chars, Oov.mkBufV rvar bowFix tab chars = some (cfg.mkBuf chars))
     (hrowsz : ∀ chars nodes, Reaches lv cfg orig chars → Oov.buildLattice cfg.providers cfg.lex (cfg.mkBuf chars) = .ok nodes →
-      ∀ e, (nodes.map toVit).countP (fun n => n.e == e) ≤ 65535)
+      ∀ e, (nodes.map toVit).countP (fun n => n.e == e) ≤ 4294967295)
     (hrew : ∀ (tb2c tc2b : List Nat) (nc nb : Nat) path path', PathOk tb2c tc2b nc nb path → cfg.rewrite path = .ok path' →
       PathOk tb2c tc2b nc nb (path'.map (·.1)))
     (r : Result) (h : tokenize .d6fix lv cfg orig = .ok r) :
